@@ -292,4 +292,64 @@ theorem tailscale_pattern_matches_tailscale_only (d o : Bytes) (hm : matchWildca
 
 example : matchWildcard (str "Node.TS.net") (str "*.ts.NET") = true ∧ isTailscale (str "*.ts.NET") = true := by decide
 
+
+/-! ### phase 2 -/
+
+theorem star_mem_joinWith (sep : Bytes) : ∀ (A B : List Bytes), star ∈ joinWith sep (A ++ [[star]] ++ B)
+  | [], [] => by simp [joinWith]
+  | [], b :: B => by simp [joinWith]
+  | a :: A, B => by
+    have ih := star_mem_joinWith sep A B
+    have hne : A ++ [[star]] ++ B ≠ [] := by simp
+    have : a :: A ++ [[star]] ++ B = a :: (A ++ [[star]] ++ B) := rfl
+    rw [this, joinWith_cons_of_ne_nil sep a hne]
+    exact List.mem_append.mpr (Or.inr ih)
+
+theorem starCands_contain_star : ∀ (rest done : List Bytes), ∀ cand ∈ starCands done rest, star ∈ cand
+  | [], _, _, h => by simp [starCands] at h
+  | l :: rest, done, cand, h => by
+    unfold starCands at h
+    split at h
+    · exact starCands_contain_star rest _ cand h
+    · rcases List.mem_cons.mp h with rfl | h
+      · exact star_mem_joinWith [dot] done rest
+      · exact starCands_contain_star rest _ cand h
+
+/-- **phase 2 hands over every name or a wildcard among the names that covers it**: each name
+    of `allCertDomains` is in `TLS.managing` afterwards, unless one of the cumulative-star
+    forms of it (`*.b.c`, `*.*.c`, … of `a.b.c`) is itself a name of `allCertDomains` — and
+    nothing outside `allCertDomains` is managed -/
+theorem phase2_manages_or_covers (names : List Bytes) (certs : List Name) (d : Name) (hd : d ∈ certs) :
+    d ∈ managedOf names certs ∨
+    ∃ s e cand, names[d]? = some s ∧ e ∈ certs ∧ cand ∈ starCands [] (splitOn dot s) ∧ names[e]? = some cand := by
+  by_cases hc : coveredByManagedWildcard names certs d = true
+  · right
+    unfold coveredByManagedWildcard at hc
+    cases hs : names[d]? with
+    | none => simp [hs] at hc
+    | some s =>
+      simp only [hs] at hc
+      split at hc
+      · cases hc
+      · simp only [List.any_eq_true, beq_iff_eq] at hc
+        obtain ⟨cand, h1, e, h2, h3⟩ := hc
+        exact ⟨s, e, cand, rfl, h2, h1, h3⟩
+  · left
+    exact List.mem_filter.mpr ⟨hd, by simpa using hc⟩
+
+theorem managedOf_subset (names : List Bytes) (certs : List Name) (d : Name) (h : d ∈ managedOf names certs) : d ∈ certs :=
+  (List.mem_filter.mp h).1
+
+/-- if no name of `allCertDomains` contains a `*`, phase 2 hands over exactly `allCertDomains` -/
+theorem phase2_manages_all_without_wildcards (names : List Bytes) (certs : List Name)
+    (h : ∀ e ∈ certs, ∀ s, names[e]? = some s → star ∉ s) : managedOf names certs = certs := by
+  unfold managedOf
+  apply List.filter_eq_self.mpr
+  intro d hd
+  rcases phase2_manages_or_covers names certs d hd with h1 | ⟨s, e, cand, _, he, hc, hn⟩
+  · exact (List.mem_filter.mp h1).2
+  · exact absurd (starCands_contain_star _ _ cand hc) (h e he cand hn)
+
+example : managedOf [[], str "x.w.test", str "*.w.test", str "a.test"] [1, 2, 3] = [2, 3] := by decide
+
 end CaddyModel.C11
